@@ -361,7 +361,11 @@ def cyclic_check(sc):
     def _alarm(signum, frame):
         raise _Hang()
 
-    expr = Builder([]).steps(sc["path"])
+    class _Quiet(Builder):
+        def logged(self, pred, depth=0):        # no call log: it would unfold the cyclic data
+            return pred
+
+    expr = _Quiet([]).steps(sc["path"])
     t = time.time()
     it = find(expr, d)
     got = []
@@ -399,6 +403,8 @@ def cyclic_check(sc):
         return None, True
     if sc["expect"] == "loop" and outcome != "loop":
         return f"expected InfiniteLoopDetected, got {outcome} after {len(got)} results", True
+    if sc["expect"] == "stop" and outcome != "stop":
+        return f"expected no result (StopIteration), got {outcome} after {len(got)} results", True
     if sc["expect"] == "results" and (outcome != "results" or got[: len(sc["first"])] != sc["first"]):
         return f"expected reachable results {sc['first']} first, got {outcome} {got[:5]}", True
     return None, True
@@ -417,6 +423,17 @@ def cyclic_oracle(ctx):
     picks = cases[:n] if ctx.tier == "thorough" else [cases[ctx.rng.randrange(0, 2)], cases[2 + ctx.rng.randrange(0, 4)]]
     picks = picks + [{"kind": "dict", "path": [["rec"], ["k", "x"]], "take": 350000, "expect": "many", "first": [],
                       "timeout": 120}]
+    # a has-predicate whose witness is the first value its (infinite) relative search selects must
+    # answer at once: the existential test is lazy, with and without conversion functions / operator
+    lazy = [
+        {"kind": "dict", "path": [["f", ["has", ["c", [["rec"], ["k", "x"]], "eq", 1], ["int"]]]], "take": 1, "expect": "results", "first": [], "timeout": 15},
+        {"kind": "dict", "path": [["f", ["has", ["p", [["rec"], ["k", "x"]]], ["ident"]]]], "take": 1, "expect": "results", "first": [], "timeout": 15},
+        {"kind": "dict", "path": [["f", ["has", ["c", [["rec"], ["k", "x"]], "eq", 1], []]]], "take": 1, "expect": "results", "first": [], "timeout": 15},
+        {"kind": "dict", "path": [["f", ["has", ["p", [["rec"], ["k", "x"]]], []]]], "take": 1, "expect": "results", "first": [], "timeout": 15},
+        {"kind": "dict", "path": [["f", ["not", ["c", [["rec"], ["k", "x"]], "eq", 1], ["int"]]]], "take": 1, "expect": "stop", "first": [], "timeout": 15},
+        {"kind": "dict", "path": [["f", ["any", [["tup", ["c", [["rec"], ["k", "x"]], "eq", 1], ["int"]]]]]], "take": 1, "expect": "results", "first": [], "timeout": 15},
+    ]
+    picks = picks + (lazy if ctx.tier == "thorough" else [lazy[0], lazy[1 + ctx.rng.randrange(0, len(lazy) - 1)]])
     bad = 0
     for sc in picks:
         try:
